@@ -106,6 +106,15 @@ def _install(sim, market, a):
     return call
 
 
+@op("trig.reset")
+def _reset(sim, market, a):
+    """The strategy re-arms one of its period triggers with the public reset(): its next evaluation is a first evaluation."""
+    obj = getattr(sim, "trig_objs", {}).get(a["id"])
+    if obj is None or not hasattr(obj, "reset"):
+        return None
+    return lambda: (obj.reset(), a["id"])[1]
+
+
 @op("trig.remove")
 def _remove(sim, market, a):
     """The strategy takes one of its triggers off its list (in place, or by assigning a new list)."""
@@ -362,7 +371,12 @@ def generate(seed: int, tier: str = "quick") -> dict:
         if kind in ("range", "ranges") and rp.random() < 0.25:
             spec["reuse_objects"] = True
         program.append({"bar": bar, "phase": phase, "op": "trig.install", "m": None, "a": spec})
-        if rp.random() < 0.12:  # the strategy later takes it off its list again
+        if kind in ("period", "periods") and spec.get("how") != "never" and rp.random() < 0.1 and not T.off_grid_periods(spec, k) \
+                and int(spec.get("pending", 0)) % k == 0:
+            # re-armed with reset() somewhere in the run (after it may have fired): from its next evaluation on it counts anew
+            rb = rp.randint(max(bar, 0), nb - 1)
+            program.append({"bar": rb, "phase": rp.choice(["before_bar", "on_bar", "after_bar"]) if rb > bar else "on_bar", "op": "trig.reset", "m": None, "a": {"id": spec["id"]}})
+        elif rp.random() < 0.12:  # the strategy later takes it off its list again
             rb = rp.randint(max(bar, 0), nb - 1)
             ph = rp.choice(["before_bar", "on_bar", "after_bar"]) if rb > bar else "on_bar"
             program.append({"bar": rb, "phase": ph, "op": "trig.remove", "m": None, "a": {"id": spec["id"], "how": rp.choice(["remove", "reassign"])}})
@@ -396,6 +410,19 @@ class TriggerOracle(Oracle):
 
     # -- installation
     def after_op(self, sim, o, outcome):
+        if o["op"] == "trig.reset":
+            tid = o["a"]["id"]
+            if outcome["status"] == "ok" and tid in self.specs and tid not in self.removed_at and tid not in self.retired_at:
+                # the bar's trigger evaluation lies between before_bar and on_bar: a reset in before_bar makes this very
+                # bar the first evaluation (the new T0), a later one the next bar
+                b = max(o["bar"], 0)
+                nb_ = b if o["phase"] == "before_bar" else b + 1
+                cut = self.grid[nb_] if nb_ < len(self.grid) else None
+                keep = [t for t in self.denoted[tid] if cut is None or t < cut]
+                fresh = T.denoted_bars(self.specs[tid], self.grid, nb_, self.k) if cut is not None else []
+                self.denoted[tid] = sorted(set(keep) | set(fresh))
+                sim.count("fault:period_trigger_re_armed_with_reset")
+            return
         if o["op"] == "trig.remove":
             tid = o["a"]["id"]
             if outcome["status"] == "ok" and tid in self.specs and tid not in self.removed_at:
